@@ -5,7 +5,6 @@ import (
 	"encoding/hex"
 	"fmt"
 
-	"github.com/contiv/libOpenflow/common"
 	of "github.com/contiv/libOpenflow/openflow13"
 	"github.com/contiv/libOpenflow/util"
 
@@ -306,6 +305,7 @@ func c07Stream(c *fw.Ctx, cs *c07Case, base []byte) {
 	var data []byte
 	sentinels := 0
 	hostile := 0
+	wantS := map[uint64]int{} // dump of the direct parse of each sentinel -> its number
 	for k := 0; k < want; k++ {
 		v := variants[r.Intn(len(variants))]
 		data = append(data, v...)
@@ -315,6 +315,7 @@ func c07Stream(c *fw.Ctx, cs *c07Case, base []byte) {
 			e := []byte{4, 2, 0, 8, 0x5e, 0, 0, 0}
 			binary.BigEndian.PutUint16(e[6:], uint16(sentinels))
 			data = append(data, e...)
+			wantS[sentinelDump(e)] = sentinels
 		}
 	}
 	conn := sched.NewConn(data)
@@ -340,8 +341,8 @@ func c07Stream(c *fw.Ctx, cs *c07Case, base []byte) {
 	}
 	got := map[uint16]int{}
 	for _, d := range s.delivered {
-		if h, okh := d.Msg.(*common.Header); okh && !d.Nil && h.Type == 2 && h.Xid>>24 == 0x5e {
-			got[uint16(h.Xid)]++
+		if k, okh := wantS[d.Dump]; okh && !d.Nil {
+			got[uint16(k)]++
 		}
 	}
 	missing := 0
@@ -353,7 +354,7 @@ func c07Stream(c *fw.Ctx, cs *c07Case, base []byte) {
 	if missing > 0 {
 		report("wedge", "stream-sentinels", fmt.Sprintf("%d of %d valid echo requests sent between %d malformed frames were never delivered although every goroutine is parked: malformed frames wedged the stream (deliveries: %d)", missing, sentinels, hostile, len(s.delivered)))
 	}
-	if s.poolSeen && (s.poolFull != 0 || s.poolEmpty+1 != s.poolCap) {
+	if s.poolSeen && (s.poolFull != 0 || s.poolEmpty < s.poolCap-1) {
 		report("wedge", "stream-buffer-pool", fmt.Sprintf("after %d malformed frames the pool holds %d empty and %d full buffers of %d at quiescence: buffers leaked", hostile, s.poolEmpty, s.poolFull, s.poolCap))
 	}
 	if len(s.errs) > 0 {
